@@ -141,6 +141,9 @@ def check_swap(ctx: Ctx, rid_pair: str, rid_region: str, pm: ParserModel) -> Non
                     why.append(f"the list that received the placeholder token reaches {bad}: the placeholder would appear in a value or be pushed back")
                 # _create_value(list) for the fallback value happens before the append
                 vals = [m for m in cfg.nodes for c in m.calls() if pm.resolve(fname, c) == ("self", "_create_value") and any(isinstance(a, ast.Name) and a.id == lst.id for a in c.args)]
+                # only the ones that see the same list as the append does (the name may be re-bound to another group later)
+                same = set(rd.get(n.id, {}).get(lst.id, ()))
+                vals = [m for m in vals if set(rd.get(m.id, {}).get(lst.id, ())) & same]
                 if not vals or not all(cfg.dominates(v, n) for v in vals):
                     ok = False
                     why.append("the raw Value of the argument is not created before the placeholder is appended")
